@@ -22,12 +22,15 @@ use std::collections::{BTreeMap, BTreeSet};
 
 // ------------------------------------------------------------------------------ C02
 
-pub const C02_RULE: &str = "query histories on ONE long-lived MoveGenerator: operations Move/Special/Undo/Unwind/QueryMoves/QueryAttacks/Transpose (undo the last four plies and replay them in a commuted order that reaches the same placement, so that which ply made the double step / lost the right differs between paths), on one engine board evolved by apply/undo; every move query is compared with the reference legal set and (every query on a position whose placement was already queried in a different state, and a slice of the others) with a brand-new generator on a from-scratch copy; every attack query with a brand-new generator on a from-scratch copy. Tree walks visit all nodes to a fixed depth in perft order on one generator and compare every node's answer with the reference. Non-trivial = the history queried one placement in two different (rights, ep) states, or a query was served from the cache after a transposition/undo detour; distinct = hash of the op sequence (histories) or position fingerprint (tree nodes).";
+pub const C02_RULE: &str = "query histories on ONE long-lived MoveGenerator: operations Move/Special/Undo/Unwind/QueryMoves/QueryMovesOther (the side not to move, where the flipped position is consistent)/QueryAttacks/Transpose; in 30% of the histories board.turn() is never updated, as in count_positions (perft style); (undo the last four plies and replay them in a commuted order that reaches the same placement, so that which ply made the double step / lost the right differs between paths), on one engine board evolved by apply/undo; every move query is compared with the reference legal set and (every query on a position whose placement was already queried in a different state, and a slice of the others) with a brand-new generator on a from-scratch copy; every attack query with a brand-new generator on a from-scratch copy. Tree walks visit all nodes to a fixed depth in perft order on one generator and compare every node's answer with the reference. Non-trivial = the history queried one placement in two different (rights, ep) states, or a query was served from the cache after a transposition/undo detour; distinct = hash of the op sequence (histories) or position fingerprint (tree nodes).";
 
 #[derive(Clone, Debug, Serialize, Deserialize)]
 pub enum QOp {
     Step(Op),
     QueryMoves,
+    /// moves of the side NOT to move (as perft and move annotation ask), only where the
+    /// colour-flipped position is a consistent one (no ep target, mover not in check)
+    QueryMovesOther,
     QueryAttacks(bool),
     Transpose(u8),
 }
@@ -36,6 +39,10 @@ pub enum QOp {
 pub struct QHistory {
     pub fen: String,
     pub ops: Vec<QOp>,
+    /// drive the board like count_positions does: the colour alternates in the queries but
+    /// board.turn() is never updated
+    #[serde(default)]
+    pub perft_style: bool,
 }
 
 pub struct C02Histories;
@@ -51,6 +58,7 @@ struct QState {
     hit_after_detour: bool,
     detour: bool,
     queries: u64,
+    perft_style: bool,
 }
 
 fn placement_fp(p: &Pos) -> u64 {
@@ -65,14 +73,18 @@ impl QState {
         let em = chess_move_of(m);
         em.apply(&mut self.board)
             .map_err(|e| fail_pos(format!("apply({}) failed: {:?}", mv_text(m), e), &self.cur))?;
-        self.board.toggle_turn();
+        if !self.perft_style {
+            self.board.toggle_turn();
+        }
         let next = self.cur.make(m);
         self.stack.push((std::mem::replace(&mut self.cur, next), *m));
         Ok(())
     }
     fn unplay(&mut self) -> TestResult {
         if let Some((prev, m)) = self.stack.pop() {
-            self.board.toggle_turn();
+            if !self.perft_style {
+                self.board.toggle_turn();
+            }
             chess_move_of(&m)
                 .undo(&mut self.board)
                 .map_err(|e| fail_pos(format!("undo({}) failed: {:?}", mv_text(&m), e), &prev))?;
@@ -120,6 +132,31 @@ impl QState {
         }
         Ok(())
     }
+    fn query_moves_other(&mut self) -> TestResult {
+        if self.cur.ep.is_some() || self.cur.in_check(self.cur.side) {
+            return Ok(());
+        }
+        let mut flipped = self.cur.clone();
+        flipped.side = self.cur.side.other();
+        if flipped.consistent().is_err() {
+            return Ok(());
+        }
+        self.queries += 1;
+        let side = flipped.side;
+        let got = engine_moves(&mut self.gen, &mut self.board, side);
+        let reference = flipped.legal_moves();
+        if let Err(e) = compare_moves(&got, &reference) {
+            return Err(fail_pos(
+                format!(
+                    "long-lived generator asked for the moves of {:?} (the side not to move, query #{}) answers differently from the rules: {}",
+                    side, self.queries, e
+                ),
+                &flipped,
+            ));
+        }
+        Ok(())
+    }
+
     fn query_attacks(&mut self, mover: bool) -> TestResult {
         // the engine itself asks for the opponent's attack map (check test) and, when
         // annotating moves, for the mover's
@@ -198,6 +235,7 @@ impl Prop for C02Histories {
             4 => Just(QOp::Step(Op::Undo)),
             1 => (1u8..6).prop_map(|k| QOp::Step(Op::Unwind(k))),
             8 => Just(QOp::QueryMoves),
+            3 => Just(QOp::QueryMovesOther),
             3 => any::<bool>().prop_map(QOp::QueryAttacks),
             5 => (0u8..3).prop_map(QOp::Transpose),
         ];
@@ -208,8 +246,9 @@ impl Prop for C02Histories {
                 2 => gen::castle_theme().prop_map(|r| gen::build(&r).fen()),
             ],
             prop::collection::vec(op, 4..70),
+            prop::bool::weighted(0.3),
         )
-            .prop_map(|(fen, ops)| QHistory { fen, ops })
+            .prop_map(|(fen, ops, perft_style)| QHistory { fen, ops, perft_style })
             .boxed()
     }
     fn cases(&self, tier: Tier) -> u32 {
@@ -227,6 +266,7 @@ impl Prop for C02Histories {
             hit_after_detour: false,
             detour: false,
             queries: 0,
+            perft_style: h.perft_style,
         };
         let mut fresh_budget = 3;
         for op in &h.ops {
@@ -250,6 +290,7 @@ impl Prop for C02Histories {
                     }
                     q.query_moves(f)?
                 }
+                QOp::QueryMovesOther => q.query_moves_other()?,
                 QOp::QueryAttacks(m) => q.query_attacks(*m)?,
                 QOp::Transpose(v) => q.transpose(*v)?,
             }
